@@ -1,1 +1,81 @@
-From Coq Require Import ZArith.
+(* C06 — Elliptical arcs end where they should and follow the requested ellipse.  PARTIAL.
+   Proved:
+   * over the reals, for the one polymorphic definition of the endpoint-to-centre conversion that the
+     float model runs (Arc.arc_center_gen): for positive radii and distinct end points, the two unit
+     vectors of step 4 have norm 1 — i.e. the start point (the pen) and the end point both lie on the
+     ellipse with the computed centre, the given rotation and the given radii, scaled up uniformly exactly
+     when they are too small — and rotating the primed offsets back recovers the pen and the end point;
+   * a relative arc's end point is the pen plus the offset (in viewBox space);
+   * a sweep of at most one turn needs at most four segments of pi/2 + 0.001;
+   * on the float model: a zero / NaN radius gives exactly one LineTo to the mapped end point; otherwise the
+     arc is n CubeTo calls and nothing else, n the subdivision count; the relative form is the absolute
+     form at the converted end point.
+   Not proved: that each cubic's end point is the ellipse point at the subdivided angle (needs the
+   acos/sin/cos angle algebra of step 4 over R), the flag semantics of large-arc / sweep, and any bound on
+   float rounding.  Those are covered by the bit-exact correspondence on ~7.5k arcs per run. *)
+From Coq Require Import Reals ZArith Bool List.
+From IVG Require Import SF NumCodec Color Calls Render GoMath Arc GeomR ArcR RenderProofs ArcProofs.
+Import ListNotations.
+
+Theorem unit_vectors : forall x1 y1 x2 y2 Rx Ry co si : R, forall same : bool,
+  (0 < Rx)%R -> (0 < Ry)%R -> (co * co + si * si = 1)%R -> (x1 <> x2 \/ y1 <> y2) ->
+  (ux x1 y1 x2 y2 Rx Ry co si same * ux x1 y1 x2 y2 Rx Ry co si same +
+   uy x1 y1 x2 y2 Rx Ry co si same * uy x1 y1 x2 y2 Rx Ry co si same = 1)%R /\
+  (vx x1 y1 x2 y2 Rx Ry co si same * vx x1 y1 x2 y2 Rx Ry co si same +
+   vy x1 y1 x2 y2 Rx Ry co si same * vy x1 y1 x2 y2 Rx Ry co si same = 1)%R.
+Proof. exact ArcR.unit_vectors. Qed.
+Print Assumptions unit_vectors.
+
+Theorem start_point : forall x1 y1 x2 y2 Rx Ry co si : R, forall same : bool,
+  (co * co + si * si = 1)%R ->
+  let c := arc_center_gen AR x1 y1 x2 y2 Rx Ry co si same in
+  (ac_cx c + co * (ac_x1p c - ac_cxp c) - si * (ac_y1p c - ac_cyp c) = x1)%R /\
+  (ac_cy c + si * (ac_x1p c - ac_cxp c) + co * (ac_y1p c - ac_cyp c) = y1)%R.
+Proof. exact ArcR.start_point. Qed.
+Print Assumptions start_point.
+
+Theorem end_point : forall x1 y1 x2 y2 Rx Ry co si : R, forall same : bool,
+  (co * co + si * si = 1)%R ->
+  let c := arc_center_gen AR x1 y1 x2 y2 Rx Ry co si same in
+  (ac_cx c + co * (- ac_x1p c - ac_cxp c) - si * (- ac_y1p c - ac_cyp c) = x2)%R /\
+  (ac_cy c + si * (- ac_x1p c - ac_cxp c) + co * (- ac_y1p c - ac_cyp c) = y2)%R.
+Proof. exact ArcR.end_point. Qed.
+Print Assumptions end_point.
+
+Theorem rel_endpoint : forall (inj : f32 -> R) (s : rstate R) (x : R), r_scx s <> 0%R ->
+  unabsX (NR inj) s (relVX (NR inj) s x) = (unabsX (NR inj) s (z_penx s) + x)%R.
+Proof. exact ArcR.rel_endpoint. Qed.
+Print Assumptions rel_endpoint.
+
+Theorem four_segments : forall d : R, (0 <= d <= 2 * PI)%R -> (d / (PI / 2 + 1 / 1000) <= 4)%R.
+Proof. exact ArcR.four_segments. Qed.
+Print Assumptions four_segments.
+
+Local Open Scope Z_scope.
+
+Theorem arc_zero_radius : forall s rx ry rot la sw x y,
+  negb (fgt F64 (dabs (to64 rx)) d0 && fgt F64 (dabs (to64 ry)) d0) = true ->
+  r_log (abs_arc s rx ry rot la sw x y) = r_log s ++ [RLineTo (absX N32 s x) (absY N32 s y)].
+Proof. exact ArcProofs.arc_zero_radius. Qed.
+Print Assumptions arc_zero_radius.
+
+Theorem arc_is_cubics : forall s rx ry rot la sw x y,
+  negb (fgt F64 (dabs (to64 rx)) d0 && fgt F64 (dabs (to64 ry)) d0) = false ->
+  let s0 := set_pst_none s in
+  let p := arc_params (to64 (unabsX N32 s0 (z_penx s0))) (to64 (unabsY N32 s0 (z_peny s0)))
+                      (dabs (to64 rx)) (dabs (to64 ry)) rot la sw x y in
+  exists l, length l = Z.to_nat (ap_n p) /\ forallb is_cube l = true /\
+            r_log (abs_arc s rx ry rot la sw x y) = r_log s ++ l.
+Proof. exact ArcProofs.arc_is_cubics. Qed.
+Print Assumptions arc_is_cubics.
+
+Theorem rel_is_abs : forall s rx ry rot la sw x y,
+  arc32 s true rx ry rot la sw x y =
+  abs_arc s rx ry rot la sw (unabsX N32 s (relVX N32 s x)) (unabsY N32 s (relVY N32 s y)).
+Proof. exact ArcProofs.rel_is_abs. Qed.
+Print Assumptions rel_is_abs.
+
+(* a half-turn arc of the unit circle from (-1,0) to (1,0): 2 segments on the float model *)
+Example ex_half_turn :
+  ap_n (arc_params (of_Z F64 (-1)) 0 (of_Z F64 1) (of_Z F64 1) 0 false true (of_Z F32 1) 0) = 2.
+Proof. vm_compute. reflexivity. Qed.
